@@ -531,6 +531,9 @@ THEOREMS = [_I + n for n in (
     "lowerS_flags", "lowerList_flags", "lowerHandlers_flags", "lower_try_flags",
     # fuel is only a termination device
     "go_mono", "go_mono_le",
+    # multi-step exact resumption (round 4)
+    "shape_setSt", "pick_some_of_enabled", "loopTI_body_frozen", "resume_atTry_yielded",
+    "body_frozen_while_handlers_active", "preempted_body_resumes_exactly",
 )] + ["Scenic.C13." + n for n in (
     "preempt_latest_enabled", "active_means_enabled_or_running", "handlers_in_reverse_source_order",
     "handler_finished_continues", "abandoned_subs_stopped", "abandoned_subs_stopped_run",
@@ -539,6 +542,7 @@ THEOREMS = [_I + n for n in (
     "legacy_checks_invariant_during_sub", "example_priority_and_resumption", "legacy_nested_break_lost",
     "legacy_nested_return_lost", "legacy_nested_break_does_not_compile", "legacy_nested_names_do_not_compile",
     "example_abort_stops_subs",
+    "body_frozen_multi_step", "preempted_body_resumes_after_any_steps", "example_frozen_body_three_steps",
 )]
 SIDE = ["Scenic.C13.gen_order", "Scenic.C13.gen_selection", "Scenic.C13.gen_checks", "Scenic.C13.gen_stop",
         "Scenic.C13.gen_repaired", "Scenic.C13.gen_is_spec"]
@@ -630,6 +634,60 @@ def describe(prog):
             f"tries={count_nodes(body, 'try')} loops={count_nodes(body, 'for') + count_nodes(body, 'while')}")
 
 
+def frozen_jobs(ctx):
+    """Round 4, the multi-step frozen-body family (ties `body_frozen_while_handlers_active` /
+    `preempted_body_resumes_exactly` to the code): a body of labelled actions (plain, inside a sub-behaviour, or itself a
+    nested statement) is pre-empted at every position p and held for m = 1..6 time steps by handlers that loop, finish and
+    fire again, pre-empt each other or contain a nested statement, then released.  Same compare path as the other cases."""
+    rng = ctx.rng
+    jobs = []
+    for _ in range(bud(ctx, 10, 60)):
+        n = rng.choice([2, 3, 4])
+        body = [["take", 101 + i] for i in range(n)]
+        behs_extra = []
+        shp = rng.choice(["loop", "refire", "two", "nested-handler", "sub-body", "nested-body"])
+        nc = 1
+        if shp == "loop":
+            hs = [[0, [["for", rng.choice([2, 3]), [["take", 201], ["take", 202]]]]]]
+        elif shp == "refire":
+            hs = [[0, [["take", 201]]]]
+        elif shp == "two":
+            hs = [[0, [["take", 201], ["take", 202], ["take", 203]]], [1, [["take", 301], ["take", 302]]]]
+            nc = 2
+        elif shp == "nested-handler":
+            hs = [[0, [["try", [["take", 201], ["take", 202], ["take", 203]], [[1, [["take", 301]]]]]]]]
+            nc = 2
+        elif shp == "sub-body":
+            behs_extra = [{"body": body}]
+            body = [["do", 1]]
+            hs = [[0, [["take", 201], ["take", 202]]]]
+        else:
+            body = [["try", body, [[1, [["take", 301], ["take", 302]]]]]]
+            hs = [[0, [["take", 201], ["take", 202]]]]
+            nc = 2
+        prog = {"behs": [{"body": [["try", body, hs], ["take", 999]]}] + behs_extra}
+        cases = []
+        for p in range(n + 1):
+            for m in sorted(rng.sample(range(1, 7), 3)):
+                steps = min(p + m + 3, 10)
+                row0 = ([0] * p + [1] * m + [0] * steps)[:steps]
+                ct = [row0]
+                if nc == 2:
+                    style = rng.choice(["off", "pulse", "rand"])
+                    if style == "off":
+                        row1 = [0] * steps
+                    elif style == "pulse":
+                        a = rng.randrange(steps)
+                        row1 = [int(a <= t < a + 2) for t in range(steps)]
+                    else:
+                        row1 = [int(rng.random() < 0.4) for _ in range(steps)]
+                    ct.append(row1)
+                cases.append((ct, [], steps))
+                ctx.hist("frozen_family", f"{shp} hold={m}")
+        jobs.append((prog, cases))
+    return jobs
+
+
 def correspondence(ctx, cfg, have_model):
     """(C) real code vs model(generated cfg); real code vs model(specified cfg).  Returns True when a concrete
     failing input (not a known finding) was found."""
@@ -637,6 +695,7 @@ def correspondence(ctx, cfg, have_model):
                      nprog=bud(ctx, 70, 450), ntab=bud(ctx, 24, 50),
                      steps_choices=bud(ctx, [3, 4, 4], [4, 5, 5, 6]), max_depth=bud(ctx, 2, 3),
                      exhaustive_limit=bud(ctx, 256, 4096))
+    jobs += frozen_jobs(ctx)
     gbits = cfg_bits(cfg) if cfg else "gen"
     lines_g, lines_s, index = [], [], []
     for pi, (p, cases) in enumerate(jobs):
@@ -1007,7 +1066,7 @@ def run(ctx):
     ctx.extra.setdefault("timing", {})["prove_s"] = round(ctx.elapsed(), 1)
     if ctx.tier == "thorough" and pr.build_ok:
         ctx.leanchecker(["ScenicModel.Props.C13", "ScenicModel.Props.C13Sched", "ScenicModel.Props.C13Balance",
-                         "ScenicModel.Props.C13Guards", "ScenicModel.Props.C13Flow", "ScenicModel.Props.C13Fuel"])
+                         "ScenicModel.Props.C13Guards", "ScenicModel.Props.C13Flow", "ScenicModel.Props.C13Fuel", "ScenicModel.Props.C13Frozen"])
     have_driver = True
     try:
         got = ctx.driver(["C13 cfg"])[0]
